@@ -11,6 +11,8 @@ mod depth_ev;
 mod hist_ev;
 mod sdm;
 mod serde_ev;
+mod visit_ev;
+mod build_ev;
 
 use std::collections::HashMap;
 
@@ -71,6 +73,8 @@ fn real_main() {
         "hist-events" => hist_ev::hist_events(&args),
         "gen-hist" => hist_ev::gen_hist(&args),
         "serde-events" => serde_ev::serde_events(&args),
+        "visit-events" => visit_ev::visit_events(&args),
+        "build-events" => build_ev::build_events(&args),
         _ => {
             eprintln!("unknown command {cmd:?}");
             std::process::exit(2);
